@@ -218,6 +218,166 @@ def lower_iter_calls(body, closure_of):
     return done
 
 
+# ------------------------------------------------------------------------------------------------ from_fn(..).find(..)
+FIND = "core::iter::traits::iterator::Iterator::find"
+FROM_FN = "core::iter::sources::from_fn::from_fn"
+
+
+def _single_def(body, local):
+    """(block index, statement or call terminator) of the unique definition of a whole local, else None"""
+    found = []
+    for bi, bb in enumerate(body["blocks"]):
+        for st in bb["s"]:
+            if st["k"] == "assign" and st["lhs"]["l"] == local:
+                found.append((bi, st))
+        t = bb["t"]
+        if t["k"] == "call" and (t.get("dest") or {}).get("l") == local:
+            found.append((bi, t))
+    if len(found) != 1 or found[0][1].get("lhs", found[0][1].get("dest")).get("p"):
+        return None
+    return found[0]
+
+
+def _env_subst(cbody, caps, lo):
+    """substitution of the closure environment's captured fields by the captured places (closure body locals shifted by lo);
+    None if the environment is used other than by reading a captured field"""
+    env_ty = cbody["locals"][1]["ty"]
+    by_ref = env_ty.startswith("&")
+    cap_pl = [_opl(o) for o in caps]
+    ok = [True]
+
+    def chk(pl):
+        if pl["l"] != 1:
+            return
+        pr = pl.get("p") or []
+        if by_ref:
+            good = len(pr) >= 2 and pr[0] == "*" and isinstance(pr[1], dict) and "f" in pr[1]
+            k = pr[1]["f"] if good else None
+        else:
+            good = len(pr) >= 1 and isinstance(pr[0], dict) and "f" in pr[0]
+            k = pr[0]["f"] if good else None
+        if not good or k >= len(cap_pl) or cap_pl[k] is None:
+            ok[0] = False
+    _walk_places(cbody["blocks"], chk)
+    if not ok[0]:
+        return None
+    env = lo + 1
+
+    def subst(pl):
+        if pl["l"] != env:
+            return
+        pr = pl.get("p") or []
+        k = pr[1]["f"] if by_ref else pr[0]["f"]
+        rest = pr[2:] if by_ref else pr[1:]
+        cp = cap_pl[k]
+        pl["l"] = cp["l"]
+        pl["p"] = list(cp.get("p") or []) + list(rest)
+        if not pl["p"]:
+            del pl["p"]
+    return subst
+
+
+def lower_from_fn_find(body, closure_of):
+    """`core::iter::from_fn(F).find(P)` with both closures built in the same function is, by the std contracts of FromFn::next
+    (= call F) and Iterator::find (= call next until it answers None or an item with P(&item); answer that item):
+
+        loop { match F() { None => break None, Some(x) => if P(&x) { break Some(x) } } }
+
+    Both closure bodies are spliced with their captured variables substituted for the environment fields."""
+    blocks = body["blocks"]
+    done = []
+    for bi in range(len(blocks)):
+        bb = blocks[bi]
+        t = bb["t"]
+        if t["k"] != "call" or bb.get("cleanup") or t.get("t") is None:
+            continue
+        fr = ((t.get("f") or {}).get("k") or {}).get("fn") or {}
+        if fr.get("path") != FIND or fr.get("trait") != ITER_TRAIT or len(t["args"]) != 2:
+            continue
+        rp, pp = _opl(t["args"][0]), _opl(t["args"][1])
+        if rp is None or pp is None or rp.get("p") or pp.get("p") or t["dest"].get("p"):
+            continue
+        if not str(body["locals"][rp["l"]]["ty"]).startswith("&mut core::iter::sources::from_fn::FromFn<"):
+            continue
+        rd = _single_def(body, rp["l"])
+        if rd is None or rd[1].get("k") != "assign" or rd[1]["rv"]["k"] != "ref" or rd[1]["rv"]["pl"].get("p"):
+            continue
+        it_l = rd[1]["rv"]["pl"]["l"]
+        idf = _single_def(body, it_l)
+        if idf is None or idf[1].get("k") != "call":
+            continue
+        ffr = ((idf[1].get("f") or {}).get("k") or {}).get("fn") or {}
+        if ffr.get("path") != FROM_FN or len(idf[1]["args"]) != 1 or idf[1].get("t") is None:
+            continue
+        fp = _opl(idf[1]["args"][0])
+        if fp is None or fp.get("p"):
+            continue
+        frv, prv = _closure_def(body, fp["l"]), _closure_def(body, pp["l"])
+        if frv is None or prv is None:
+            continue
+        fcl, pcl = closure_of(frv["def"]), closure_of(prv["def"])
+        if fcl is None or pcl is None or not fcl.get("body") or not pcl.get("body"):
+            continue
+        fb, pb = fcl["body"], pcl["body"]
+        if fb["argc"] != 1 or pb["argc"] != 2:
+            continue
+        L = body["locals"]
+        span = t.get("span", "")
+        opt_ty = fb["locals"][0]["ty"]
+        item_ty = body["locals"][t["dest"]["l"]]["ty"]
+        if not (item_ty == opt_ty and opt_ty.startswith("core::option::Option<")):
+            continue
+        item_ty = opt_ty[len("core::option::Option<"):-1]
+        d_l, x_l, rx_l = len(L), len(L) + 1, len(L) + 2
+        L += [{"ty": "isize", "mut": True, "low": "discr"}, {"ty": item_ty, "mut": True, "low": "item"}, {"ty": "&" + item_ty, "mut": True, "low": "item ref"}]
+        lo_f = len(L)
+        for l in fb["locals"]:
+            L.append(dict(l, inl=fcl.get("key") or fcl.get("path")))
+        lo_p = len(L)
+        for l in pb["locals"]:
+            L.append(dict(l, inl=pcl.get("key") or pcl.get("path")))
+        sf, sp = _env_subst(fb, frv["ops"], lo_f), _env_subst(pb, prv["ops"], lo_p)
+        if sf is None or sp is None:
+            del L[d_l:]
+            continue
+        after = t["t"]
+        dest = copy.deepcopy(t["dest"])
+        S = len(blocks)
+        BD, NONE, FOUND, UR, TEST = S + 1, S + 2, S + 3, S + 4, S + 5
+        FB = S + 6                       # first block of the spliced producer
+        PB = FB + len(fb["blocks"])      # first block of the spliced predicate
+        # the from_fn call disappears (its closure aggregate stays; the FromFn value is never used again)
+        blocks[idf[0]]["t"] = {"k": "goto", "t": idf[1]["t"], "span": span, "lowered": FROM_FN}
+        bb["t"] = {"k": "goto", "t": FB, "span": span, "lowered": FIND}
+        opt = "core::option::Option"
+        blocks.append({"s": [{"k": "assign", "lhs": {"l": d_l}, "rv": {"k": "discr", "pl": {"l": lo_f}, "of": opt_ty}, "span": span, "lowered": True}],
+                       "t": {"k": "switch", "d": {"m": {"l": d_l}}, "dty": "isize", "vals": [0, 1], "ts": [NONE, BD], "otherwise": UR, "span": span, "lowered": True}})
+        blocks.append({"s": [{"k": "assign", "lhs": {"l": x_l}, "rv": {"k": "use", "op": {"m": {"l": lo_f, "p": [{"dc": 1, "n": "Some"}, {"f": 0, "n": "0", "ty": item_ty}]}}}, "span": span, "lowered": True},
+                             {"k": "assign", "lhs": {"l": rx_l}, "rv": {"k": "ref", "bk": "shared", "pl": {"l": x_l}}, "span": span, "lowered": True},
+                             {"k": "assign", "lhs": {"l": lo_p + 2}, "rv": {"k": "use", "op": {"c": {"l": rx_l}}}, "span": span, "lowered": True}],
+                       "t": {"k": "goto", "t": PB, "span": span, "lowered": True}})
+        blocks.append({"s": [{"k": "assign", "lhs": copy.deepcopy(dest), "rv": {"k": "aggr", "ak": "adt", "adt": opt, "adt_name": "Option", "adt_crate": "core", "variant": "None",
+                                                                                "variant_idx": 0, "fields": [], "ty": opt_ty, "ops": []}, "span": span, "lowered": True}],
+                       "t": {"k": "goto", "t": after, "span": span, "lowered": True}})
+        blocks.append({"s": [{"k": "assign", "lhs": copy.deepcopy(dest), "rv": {"k": "aggr", "ak": "adt", "adt": opt, "adt_name": "Option", "adt_crate": "core", "variant": "Some",
+                                                                                "variant_idx": 1, "fields": ["0"], "ty": opt_ty, "ops": [{"m": {"l": x_l}}]}, "span": span, "lowered": True}],
+                       "t": {"k": "goto", "t": after, "span": span, "lowered": True}})
+        blocks.append({"s": [], "t": {"k": "unreachable", "span": span}})
+        blocks.append({"s": [], "t": {"k": "switch", "d": {"m": {"l": lo_p}}, "dty": "bool", "vals": [0], "ts": [FB], "otherwise": FOUND, "span": span, "lowered": True}})
+        for (cb_list, lo, base, sub, ret_to) in ((fb["blocks"], lo_f, FB, sf, S), (pb["blocks"], lo_p, PB, sp, TEST)):
+            for cb in cb_list:
+                nb = _ren(copy.deepcopy(cb), lo)
+                _walk_places(nb, sub)
+                nt = nb["t"]
+                if nt["k"] == "return":
+                    nb["t"] = {"k": "goto", "t": ret_to, "span": nt.get("span", span), "lowered": True}
+                else:
+                    _shift_targets(nt, base)
+                blocks.append(nb)
+        done += [fcl.get("key") or fcl.get("path"), pcl.get("key") or pcl.get("path")]
+    return done
+
+
 # --------------------------------------------------------------------------------------------------------- forwarding
 _STD_CTORS = {"core::option::Option::Some": ("core::option::Option", "Option", "Some", 1),
               "core::result::Result::Ok": ("core::result::Result", "Result", "Ok", 0),
